@@ -227,6 +227,9 @@ func (a counts) minus(b counts) counts {
 	return d
 }
 
+// missingFamily, when set, is told about a discard metric the map's constructor did not instantiate (and ends the run).
+var missingFamily func(name string)
+
 var labelPool chan *labelHandles
 var allLabels []*labelHandles
 
@@ -248,6 +251,11 @@ func existingCollector(name string, histogram bool, labels []string) prometheus.
 		}
 	}
 	if !found {
+		// A vector without children is not gathered: constructing the map did not instantiate this metric for
+		// its storage type, so a discard of that kind could never be reported through it.
+		if missingFamily != nil {
+			missingFamily(name)
+		}
 		ev.HarnessError("metric family %s is not in the default registry after constructing a hashingKeyLocationMap", name)
 	}
 	var c prometheus.Collector
